@@ -50,6 +50,11 @@ CLAIMED = {
    text='Proof. Line.radialrange: with q(t) the squared distance, q(t) = q(t*) + |p1-p0|^2 (t-t*)^2 and q(t) = (1-t)q(0) + t q(1) - t(1-t)|p1-p0|^2 (t* = the traced projection parameter), hence for every non-degenerate line and every z the returned ((dmin,tmin),(dmax,tmax)) has both parameters in [0,1], d = |point(t)-z|, and bounds the distance of every point of the segment (all four return shapes). Quadratic/Cubic: the polynomial the code hands to the root finder is proved to be d/dt|B(t)-z|^2 (bridge on traced coefficients); given the root oracle contract the candidates [0,1]+roots contain a global minimiser and maximiser (compactness + Fermat), and the selection returns a minimum/maximum over the candidates with the parameter it was evaluated at. Path.radialrange: the reported minimum is below every segment minimum and carries the index of the segment it came from. Selection and reduction are run against the real functions on exact rationals; a sampler checks global optimality against 4001-point dense evaluation for query points far/near/on the curve/beyond an end/near a centre of curvature, incl. tiny curves.',
    note='Trusted: kernel + standard axioms; translator; np.roots oracle (contract stated in the theorem); abs/sqrt monotone. Not proved: the dual statement for the Path maximum (modelled and compared, incl. the all-zero case).',
    ref='7 C13'),
+ 'C14': dict(
+   technique='Lean 4 proof: ring identities on Path.area() traced through numpy.poly1d (poly, real/imag, deriv, *, integ) for five closed shapes, incl. reversal/translation/affine-determinant laws; decision-logic theorems for path_encloses_pt / is_contained_by on a hand model tied by correspondence',
+   text='Proof. For the traced closed paths triangle, quadrilateral, cubic+line, quadratic+line and cubic+cubic (coordinate-wise symbolic control points): polygons equal the shoelace value; cubic+line equals the closed-form Green value; area(reversed) = -area, area(translated) = area and area(transform(M)) = det(M) * area for every 2x3 affine matrix - all as polynomial identities over any field of characteristic 0; orientation pinned by kernel-evaluated unit squares (+1 counter-clockwise, -1 clockwise). path_encloses_pt is the parity of the reported crossings, is_contained_by is exactly (not crossing) and (start in bbox) and (odd probe crossings); the model is run against the real functions over the full truth table. Sampler: exact rational shoelace for random polygons (incl. self-intersecting), dense-polygon reference for Bezier paths (incl. horizontal chords), circles/ellipses from arcs, reversal/translation/random affine maps, exact even-odd test with the probe in general position, containment on nested/disjoint/crossing squares and a bow-tie.',
+   note='Trusted: kernel + standard axioms; translator; numpy.poly1d object algebra. Partial: identities are per traced shape (general n-segment paths sampled); the Green integral is not stated with Mathlib integrals; general orientation (Jordan) not attempted; arc chord approximation sampled; enclosure geometry rests on Path.intersect (C11/C12).',
+   ref='7 C14'),
  'C16': dict(
    technique='Lean 4 proof: refinement of the mutable Path (state machine with caches) to the cache-free specification by a representation invariant and induction over the operation history; accuracy-contract theorem for the cubic length cache; models tied by operation-sequence correspondence',
    text='Proof (law-free, so valid verbatim for floats). Model: segment list + _length/_lengths/_length_params/_start/_end caches; mutators __setitem__ (index, slice), __delitem__, insert, and append/extend/pop/reverse derived as collections.abc derives them, start/end setters; queries length (any accuracy), T2t, point, start, end. Theorem history_refines_fresh: from a freshly constructed path, after ANY history of admissible mutations interleaved with queries, every query returns exactly what a newly constructed Path of the current segments returns (invariant + induction over the op list). cubic_cache_accuracy: for any monotone accuracy contract every value returned by CubicBezier.length meets the request for the current control points. Pre-repair setters and hit rule are refuted by kernel-checked witnesses. The models are executed against the real classes on every run (random histories to depth 60 with negative/out-of-range indices and raising ops, exhaustive depth 2/3 over a 17-op alphabet, identity-integrator cache runs); a float sampler compares every public query incl. bbox/d/== with a fresh Path after each operation, with scipy on and off.',
